@@ -21,7 +21,10 @@ Envs == << [m |-> <<1,4, 1,2, 2,4>>,        names |-> << <<>>, <<110>>, <<>> >>]
            [m |-> <<2,6, 0,0, 3,3>>,        names |-> << <<>>, <<>>, <<110,95,120>> >>],   \* group 1 unset, group 2 empty, named n_x
            [m |-> <<1,1>>,                  names |-> << <<>> >>],                         \* no groups, empty match
            [m |-> <<1,6, 1,2, 2,3, 3,4, 4,5, 5,6, 1,3, 2,4, 3,5, 4,6, 1,6, 2,6>>,          \* 11 groups: $10, $11 exist
-            names |-> << <<>>, <<>>, <<>>, <<>>, <<>>, <<>>, <<>>, <<>>, <<>>, <<>>, <<120>>, <<49,120>> >>] >>
+            names |-> << <<>>, <<>>, <<>>, <<>>, <<>>, <<>>, <<>>, <<>>, <<>>, <<>>, <<120>>, <<49,120>> >>],
+           \* one name on two groups, as in (?P<n>a)x|(?P<n>b)y: $n is the FIRST group of that name that took part in the match
+           [m |-> <<1,4, 0,0, 2,4, 1,2>>,   names |-> << <<>>, <<110>>, <<110>>, <<120>> >>],
+           [m |-> <<1,4, 1,2, 2,4, 0,0>>,   names |-> << <<>>, <<110>>, <<110>>, <<110>> >>] >>
 
 T == SetToSeq(Tmpls(MaxLen))
 Idx == {i \in 1..Len(T) : i % NShards = Shard} \cup {0}
